@@ -43,4 +43,17 @@ func init() {
 		{Name: "float-as-integer", File: "cypher/models/cypher/format/format.go", Old: "\tif !strings.ContainsAny(formatted, \".eEIN\") {\n\t\tformatted += \".0\"\n\t}\n", New: "\t_ = strings.ContainsAny\n", Expect: "C10-R3-literal-class"},
 		{Name: "emitter-ignores-exclusive", File: "cypher/models/cypher/format/format.go", Old: "if typedExpression.IsExclusive && len(typedExpression.Kinds) > 1 {", New: "if false && len(typedExpression.Kinds) > 1 {", Expect: "C10-R2-emitter-field|KindMatcher.IsExclusive"},
 	}
+	mutations["C16"] = []Mutation{
+		{Name: "get-without-lock", File: "cache/sieve.go", Old: "func (s *Sieve[K, V]) Get(key K) (V, bool) {\n\ts.rwLock.RLock()\n\tdefer s.rwLock.RUnlock()\n", New: "func (s *Sieve[K, V]) Get(key K) (V, bool) {\n", Expect: "C16-R1-guarded-by|Sieve.Get"},
+		{Name: "put-under-read-lock", File: "cache/nemap.go", Old: "func (s *NonExpiringMapCache[K, V]) Put(key K, value V) {\n\ts.rwLock.Lock()\n\tdefer s.rwLock.Unlock()", New: "func (s *NonExpiringMapCache[K, V]) Put(key K, value V) {\n\ts.rwLock.RLock()\n\tdefer s.rwLock.RUnlock()", Expect: "C16-R1-guarded-by|NonExpiringMapCache.Put:store"},
+		{Name: "capacity-guard-removed", File: "cache/nemap.go", Old: "} else if int(s.stats.Size()) < s.stats.Capacity {", New: "} else {", Expect: "C16-R3-bounded|NonExpiringMapCache.Put:store-insert"},
+		{Name: "evict-only-when-over", File: "cache/sieve.go", Old: "\tif s.queue.Len() >= int(s.stats.Capacity) {\n\t\ts.evict()\n\t}\n", New: "", Expect: "C16-R3-bounded|Sieve.putEntry:store-insert"},
+		{Name: "size-not-decremented", File: "cache/sieve.go", Old: "\tdelete(s.store, e.key)\n\n\ts.stats.Delete()\n", New: "\tdelete(s.store, e.key)\n", Expect: "C16-R4-pairing|Sieve.removeEntry:delete↔size-1"},
+		{Name: "hand-not-repaired", File: "cache/sieve.go", Old: "\t\tif entry.element == s.hand {\n\t\t\ts.hand = s.hand.Prev()\n\t\t}\n", New: "", Expect: "C16-R5-stale-hand|Sieve.Delete"},
+		{Name: "reentrant-delete", File: "cache/sieve.go", Old: "\ts.hand = hand.Prev()\n\ts.removeEntry(entry)\n}", New: "\ts.hand = hand.Prev()\n\ts.Delete(entry.key)\n}", Expect: "C16-R1-reentrancy"},
+		{Name: "lock-leak", File: "cache/nemap.go", Old: "func (s *NonExpiringMapCache[K, V]) Delete(key K) {\n\ts.rwLock.Lock()\n\tdefer s.rwLock.Unlock()\n", New: "func (s *NonExpiringMapCache[K, V]) Delete(key K) {\n\ts.rwLock.Lock()\n", Expect: "C16-R1-lock-release|NonExpiringMapCache.Delete"},
+		{Name: "off-by-one-evict", File: "cache/sieve.go", Old: "if s.queue.Len() >= int(s.stats.Capacity) {", New: "if s.queue.Len() > int(s.stats.Capacity) {", Expect: "C16-R3-bounded|Sieve.putEntry:store-insert"},
+		{Name: "off-by-one-admit", File: "cache/nemap.go", Old: "int(s.stats.Size()) < s.stats.Capacity", New: "int(s.stats.Size()) <= s.stats.Capacity", Expect: "C16-R3-bounded|NonExpiringMapCache.Put:store-insert"},
+		{Name: "clamp-removed", File: "cache/sieve.go", Old: "\tif capacity <= 0 {\n\t\tcapacity = 1\n\t}\n", New: "", Expect: "C16-R3-capacity-clamp"},
+	}
 }
